@@ -7,7 +7,7 @@ from props_c01 import D8_ALL, LDD_ALL, D8_DIR, LDD_DIR, SHAPES, _expected
 PID = "C02"
 THEOREMS = ["to_d8_roundtrip", "to_ldd_roundtrip", "to_nextxy_roundtrip", "to_d8_total", "to_ldd_total",
             "roundtrip_from_d8", "roundtrip_from_ldd", "roundtrip_from_nextxy", "export_canonical_d8",
-            "export_canonical_ldd", "primary_pit_codes", "remap_d8_to_ldd", "remap_ldd_to_d8", "remap_unknown"]
+            "export_canonical_ldd", "primary_pit_codes", "remap_d8_to_ldd", "remap_ldd_to_d8", "remap_unknown", "gen_d8_to_array_eq", "gen_ldd_to_array_eq", "gen_nextxy_to_array_eq"]
 RULE = ("all 9 (source, target) format pairs through from_array(...).to_array(target): exhaustive legal D8/LDD rasters on "
         "shapes with <= 3 cells (quick; <= 4 thorough) and a random share of the 4-cell shapes, random rasters to 8x8, "
         "NEXTXY sources with far links (export to D8/LDD must raise ValueError); to_array kernels on arbitrary closed "
